@@ -99,14 +99,35 @@ StepSame == /\ last = None /\ cell.op \in DifferenceOps
                IN last' = [op |-> cell.op, mode |-> Absent, res |-> r, out |-> IF r.kind = "ok" THEN Ok(ZeroDur) ELSE r,
                            operands |-> IF "b" \in DOMAIN o THEN [a |-> o.a, b |-> o.a] ELSE o, same |-> TRUE]
             /\ UNCHANGED cell
-Next == (\E mode \in ModeOpts : Step(mode)) \/ StepSame
+\* the public helper tables of the option enums (Unit::as_nanoseconds / to_maximum_rounding_increment / is_*_unit,
+\* RoundingMode::negate / get_unsigned_round_mode): one step per unit (incl. auto) and per mode, independent of the cell
+AnchorCell == CHOOSE c \in [op : Ops, lg : UnitOpts, sm : UnitOpts, inc : Incs] : TRUE
+UnitInfo(u) == [ns |-> IF u \in TimeUnits \cup {"day"} THEN UnitNsBig(u) ELSE Zero,          \* 0 stands for "none"
+                max |-> IF u = "auto" THEN 0 ELSE MaxInc(u),
+                cal |-> u \in CalendarUnits, date |-> u \in DateUnits, time |-> u \in TimeUnits]
+ModeInfo(m) == [neg |-> NegateMode(m), pos |-> Unsigned(m, FALSE), negative |-> Unsigned(m, TRUE)]
+TableUnit(u) == /\ last = None /\ cell = AnchorCell
+                /\ last' = [op |-> "table.unit", mode |-> Absent, res |-> [kind |-> "ok"], out |-> Ok(UnitInfo(u)), operands |-> [unit |-> u], same |-> FALSE]
+                /\ UNCHANGED cell
+TableMode(m) == /\ last = None /\ cell = AnchorCell
+                /\ last' = [op |-> "table.mode", mode |-> Absent, res |-> [kind |-> "ok"], out |-> Ok(ModeInfo(m)), operands |-> [mode |-> m], same |-> FALSE]
+                /\ UNCHANGED cell
+Next == (\E mode \in ModeOpts : Step(mode)) \/ StepSame \/ (\E u \in UnitSet \cup {"auto"} : TableUnit(u)) \/ (\E m \in Modes : TableMode(m))
+\* laws on the tables: negation is an involution that swaps the two signs' unsigned modes; the three unit classes partition as Temporal says
+TableLaws == /\ (last.op = "table.mode" => LET m == last.operands.mode IN
+                    /\ NegateMode(NegateMode(m)) = m
+                    /\ Unsigned(NegateMode(m), FALSE) = Unsigned(m, TRUE) /\ Unsigned(NegateMode(m), TRUE) = Unsigned(m, FALSE))
+             /\ (last.op = "table.unit" => LET i == last.out.val IN
+                    /\ (i.cal => i.date) /\ (i.date = ~i.time \/ last.operands.unit = "auto")
+                    /\ (i.max # 0 => i.time) /\ (i.time => ~IsZero(i.ns)))
 Spec == Init /\ [][Next]_vars
 
 Done == last.op # "none"
 \* acceptance never depends on the rounding mode
-AcceptanceIgnoresMode == Done => (last.res.kind = ResolveCell(cell, Absent).kind)
+IsTable == last.op \in {"table.unit", "table.mode"}
+AcceptanceIgnoresMode == (Done /\ ~IsTable) => (last.res.kind = ResolveCell(cell, Absent).kind)
 \* resolved settings are coherent
-ResolvedCoherent == (Done /\ last.res.kind = "ok") =>
+ResolvedCoherent == (Done /\ ~IsTable /\ last.res.kind = "ok") =>
   /\ (last.res.largest # "auto" => UnitLe(last.res.smallest, last.res.largest))
   /\ (MaxInc(last.res.smallest) # 0 /\ cell.op # "Instant.round" => MaxInc(last.res.smallest) % last.res.inc = 0 /\ last.res.inc < MaxInc(last.res.smallest))
   /\ (last.mode # Absent /\ ~IsSince(cell.op) => last.res.mode = last.mode)
